@@ -15,6 +15,7 @@ package main
 import (
 	"math/rand"
 	"os"
+	"sync"
 	"time"
 
 	"verif/harness/lib/etcdx"
@@ -74,15 +75,35 @@ func main() {
 	rounds := r.Pick(20, 10) // thorough: per shard
 	ks := []int{2, 8, 32}
 	vias := []string{"direct", "grpc", "mixed"}
-	for i := 0; i < rounds && r.Violations() == 0; i++ {
-		g := i + r.Shard*rounds // global round number: shards walk through different plans
-		p := roundPlan{Members: 1, K: ks[g%3], Via: vias[(g/3)%3], Malformed: rng.Intn(4),
-			PreResign: g%5 == 3, PostResign: g%2 == 0, Restart: g%4 == 1, ForeignKind: g}
-		if r.Thorough() && (g%7)%2 == 1 {
-			p.Members = 3
-		}
-		bootstrapRound(r, g, p, rng)
+	// rounds are independent (own cluster, own PRNG derived from seed and round number); a few run
+	// side by side to keep the wall time down
+	par := r.Pick(3, 2)
+	jobs := make(chan int)
+	var wg sync.WaitGroup
+	for k := 0; k < par; k++ {
+		wg.Add(1)
+		go func() {
+			defer wg.Done()
+			for i := range jobs {
+				if r.Violations() > 0 {
+					continue
+				}
+				g := i + r.Shard*rounds // global round number: shards walk through different plans
+				rrng := rand.New(rand.NewSource(r.Seed*1000003 + int64(g)*7919 + 17))
+				p := roundPlan{Members: 1, K: ks[g%3], Via: vias[(g/3)%3], Malformed: rrng.Intn(4),
+					PreResign: g%5 == 3, PostResign: g%2 == 0, Restart: g%4 == 1, ForeignKind: g}
+				if r.Thorough() && (g%7)%2 == 1 {
+					p.Members = 3
+				}
+				bootstrapRound(r, g, p, rrng)
+			}
+		}()
 	}
+	for i := 0; i < rounds; i++ {
+		jobs <- i
+	}
+	close(jobs)
+	wg.Wait()
 	r.Set("wall_bootstrap_rounds_s", time.Since(t0).Seconds())
 	r.Floor(int64(r.Pick(300, 100)))
 	r.Finish()
